@@ -343,26 +343,8 @@ def asm_rule(ctx: Ctx, rid: str = "R19.asm") -> None:
     r = ctx.rule(rid, "instruction i at address i, max_pc = len-1, labels count mnemonic lines, data grows downward")
     p = m.cls("ToyParser")
     li = m.method(p, "_load_instructions", own=True)
-    ok_write = ok_max = False
-    for n in walk_no_nested(li.node):
-        if isinstance(n, ast.For) and isinstance(n.iter, ast.Call) and ast.unparse(n.iter) == "enumerate(instructions)" \
-                and isinstance(n.target, ast.Tuple) and len(n.target.elts) == 2:
-            a, i = [ast.unparse(x) for x in n.target.elts]
-            for c in calls_in(n):
-                if isinstance(c.func, ast.Attribute) and c.func.attr == "write_halfword" and len(c.args) == 2:
-                    ok_write = ast.unparse(c.args[0]) == a and ast.unparse(c.args[1]) in (f"UInt16(int({i}))", f"UInt16({i}.to_integer())")
-        if isinstance(n, ast.Assign) and isinstance(n.targets[0], ast.Attribute) and n.targets[0].attr == "max_pc":
-            ok_max = linform(n.value) == {"len(instructions)": 1, "": -1}
-    r.check(ok_write, "ToyParser._load_instructions|placement", li.loc(), "instruction i is no longer written to address i as its 16-bit encoding")
-    r.check(ok_max, "ToyParser._load_instructions|max_pc", li.loc(), "max_pc is not len(instructions) - 1")
-    # instructions are appended in text order
-    txt = " ".join(ast.unparse(li.node).split())
-    r.check("for linenumber, line, tokens in self.text" in txt or "in self.text:" in txt, "ToyParser._load_instructions|order", li.loc(),
-            "instructions are not collected by iterating self.text in order")
-    # memory-size checks
-    # (which exception type rejects an oversized program is C15's clause)
-    r.check("len(instructions) - 1 > self.last_address_not_used_by_data" in txt, "ToyParser._load_instructions|overflow", li.loc(),
-            "the program/data collision check is gone or changed")
+    from ..toyparserspec import placement_rules
+    placement_rules(ctx, r)
     # label pass
     pl = m.method(p, "_process_labels")
     from ..pathsym import disj, iteration_paths, same_function
@@ -414,15 +396,6 @@ def asm_rule(ctx: Ctx, rid: str = "R19.asm") -> None:
     ptxt = " ".join(ast.unparse(pl.node).split())
     r.check("for line_number, line, tokens in self.token_list" in ptxt, "ToyParser._process_labels|scope", pl.loc(),
             "labels are not computed over the whole token list (segment order would matter)")
-    # data placement
-    wd = m.method(p, "_write_data", own=True)
-    dtxt = " ".join(ast.unparse(wd.node).split())
-    r.check("self.last_address_not_used_by_data = max(self.state.memory.address_range)" in dtxt, "ToyParser._write_data|top", wd.loc(),
-            "data does not start at the top address")
-    r.check("self.last_address_not_used_by_data -= len(values_to_write)" in dtxt and "write_address = self.last_address_not_used_by_data + 1" in dtxt
-            and "write_address += 1" in dtxt, "ToyParser._write_data|downward", wd.loc(),
-            "variables are not allocated downward with ascending elements")
-    r.check("if write_address < 0: raise " in dtxt, "ToyParser._write_data|overflow", wd.loc(), "data overflow is not rejected")
     # operand resolution: `label` is also bound by an in-line label declaration, so the operand may only be
     # read from tokens.label when no numeric operand was given
     from ..guards import facts_of
